@@ -387,7 +387,7 @@ class UBXReader:
         clsid = message[2:3]
         msgid = message[3:4]
         lenb = message[4:6]
-        if lenb == b"\x00\x00":
+        if lenb == b"\x00\x00" and lenm <= 8:
             payload = None
             leni = 0
         else:
@@ -403,7 +403,7 @@ class UBXReader:
                 raise UBXParseError(
                     (f"Invalid message header {hdr}" f" - should be {UBX_HDR}")
                 )
-            if leni != bytes2val(lenb, U2):
+            if lenm < 8 or leni != bytes2val(lenb, U2):
                 raise UBXParseError(
                     (
                         f"Invalid payload length {lenb}"
